@@ -656,12 +656,21 @@ func subDump(kind string, v reflect.Value) string {
 		x.Header.VisitAllCookie(func(k, v []byte) { hs = append(hs, "C:"+string(k)+"="+string(v)) })
 		x.PostArgs().VisitAll(func(k, v []byte) { hs = append(hs, "P:"+string(k)+"="+string(v)) })
 		fmt.Fprintf(&sb, "body=%q hdrs=%v wire=%q", x.Body(), hs, x.Header.Header())
+		// behaviour, not only getters: flags without a getter show in what the object does next
+		x.Header.Set("x-lower-name", "v")
+		x.Header.Trailer().Set("x-lower-trailer", "t")
+		x.SetRequestURI("/p/../q?a=1&b")
+		fmt.Fprintf(&sb, "\nuse: head=%q trailer=%q uri=%q", x.Header.Header(), x.Header.Trailer().Header(), x.URI().String())
 	case *protocol.Response:
 		dumpValue(&sb, "hdr", reflect.ValueOf(&x.Header))
 		var hs []string
 		x.Header.VisitAll(func(k, v []byte) { hs = append(hs, string(k)+"="+string(v)) })
 		x.Header.VisitAllCookie(func(k, v []byte) { hs = append(hs, "C:"+string(k)+"="+string(v)) })
 		fmt.Fprintf(&sb, "body=%q hdrs=%v", x.Body(), hs)
+		x.Header.Set("x-lower-name", "v")
+		x.Header.Trailer().Set("x-lower-trailer", "t")
+		x.SetBodyString("b")
+		fmt.Fprintf(&sb, "\nuse: head=%q trailer=%q body=%q", dateRe.ReplaceAllString(string(x.Header.Header()), ""), x.Header.Trailer().Header(), x.Body())
 	case *protocol.URI:
 		var hs []string
 		x.QueryArgs().VisitAll(func(k, v []byte) { hs = append(hs, string(k)+"="+string(v)) })
